@@ -153,7 +153,9 @@ def case(ctx, i, rng):
             v = ufl.Argument(w.ufl_function_space(), nxt)
             frames.append(((w,), (v,), ()))
         if variant == "cd":
-            gname = rng.choice([n for n in names if U.spaces[n].ufl_element().pullback.is_identity])
+            # (not a cellwise constant g: a relation dg/dw = <varying field> is inconsistent with g living in DG0, and UFL
+            # folds grad(g) = 0 for such g before any derivative rule sees it - nothing well-defined to judge)
+            gname = rng.choice([n for n in names if U.spaces[n].ufl_element().pullback.is_identity and U.spaces[n].ufl_element().embedded_superdegree > 0])
             g = U.coef(gname, 1)
             if g == w:
                 g = U.coef(gname, 2)
@@ -170,6 +172,11 @@ def case(ctx, i, rng):
             if vm is None:
                 # find the argument UFL created: number max+1 on the mixed space of the coefficients' elements
                 found = [a for a in arguments_of(e) if a.number() == nxt]
+                if not found and "CoefficientDerivative" not in node_classes(e):
+                    # derivative() folded at construction (the integrand does not depend on anything differentiable):
+                    # there is no derivative node that could carry the new argument
+                    ctx.count("folded_at_construction")
+                    return
                 if len(found) != 1:
                     ctx.violation("C02/tuple-auto/created-argument", f"expected exactly one new argument with number {nxt}, found {found}", {"F": str(F)[:600]})
                     return
